@@ -9,8 +9,8 @@ META = {
   "note": "Trusted: Lean kernel, engine `math` (bit-exact model/code agreement incl. the 300-iteration log and the 150000-iteration power series), big.Float reference series. Known findings F9/F10 (Pow precision / non-convergence for bases far from 1).",
  },
  "C14": {
-  "text": "Lean 4 theorems (Props/C14.lean): out-of-range ticks and prices are rejected, RoundDownTickToSpacing equals t - (t mod spacing) with the stated bounds, and whenever the sqrt-price search returns a tick its bucket contains the sqrt price (lower edge inclusive, upper exclusive). Monotonicity/closed-formula theorems are being added (Props/C14Mono.lean); until then those clauses are decided by the engine's per-tick oracle (thorough tier sweeps the tick range).",
-  "note": "Trusted: Lean kernel, engine `tick` (bit-exact model/code agreement), big.Rat closed formula in the oracle. PARTIAL until C14Mono lands: strict monotonicity and the round trip are tested (incl. strided/exhaustive sweeps), not proved.",
+  "text": "Lean 4 theorems (Props/C14.lean, Props/C14Mono.lean, 27): tick->price equals the documented geometric/additive closed form on the whole supported range, is strictly increasing and in bounds; tick->sqrt-price is total, in bounds and strictly increasing (both precision regimes and their boundary); out-of-range ticks/prices are rejected; RoundDownTickToSpacing = t - (t mod spacing) with the stated bounds; whenever the sqrt-price search returns a tick, that tick's bucket contains the sqrt price (lower edge inclusive, upper exclusive). PARTIAL: totality of the round trip sp(t) -> t (that the +-1 correction always suffices) is not a theorem; it is decided by the engine (thorough: strided sweep of the whole tick range; VERIF_TICK_SWEEP_STRIDE=1 enumerates all 6.1e8 ticks).",
+  "note": "Trusted: Lean kernel, engine `tick` (bit-exact model/code agreement), big.Rat closed formula in the oracle.",
  },
  "C18": {
   "text": "Lean 4 theorems (Props/C18.lean): every epoch's allocation sums to the minted amount with each share the truncated proportion, the community pool takes the remainder and the mint account ends empty; exactly the integer part of the provision is minted; the provision is reduced exactly once per reduction period over ANY number of consecutive epochs (induction) and never before the start epoch; the reported-supply delta is characterised exactly (equal to the minted amount iff the receivers' truncated portions add up to the developer reward). Model tied to x/mint through the real app keepers.",
